@@ -762,3 +762,36 @@ Proof.
   - rewrite Hv. rewrite declared_pairs. reflexivity.
   - rewrite Hn. rewrite map_map. apply map_ext. intros v. reflexivity.
 Qed.
+
+(** without any range hypothesis (after the repair of C10-F22): the hypotheses of the round-trip theorem
+    ([en_ok]: explicit numbers are 64-bit integers and the Enum action reports no error) already imply that
+    Apache Thrift's numbering stays inside the 64-bit integers and that the parsed enum carries exactly it *)
+Lemma evs_explicit_in64 : forall vs, evs_ok vs -> explicit_in64 (map ev_pair vs).
+Proof.
+  induction vs as [|v r IH]; intros H; [constructor|]. cbn [evs_ok] in H. destruct H as [Hv Hr].
+  cbn [map]. constructor; [|exact (IH Hr)].
+  destruct Hv as (_ & _ & _ & Htl). unfold ev_pair. cbn [fst snd ev_value].
+  destruct (v_tail v) as [W|g sep W|g1 g z W|g1 g z g2 sep W]; cbn [declared tail_ok_l tail_ok] in *; intros Hex;
+    try discriminate Hex; unfold in64; unfold int64 in Htl; tauto.
+Qed.
+
+Lemma in64_dec : forall z, {in64 z} + {~ in64 z}.
+Proof.
+  intros z. unfold in64. destruct (Z_le_dec (- 9223372036854775808) z); destruct (Z_le_dec z 9223372036854775807);
+    [left; lia | right; lia | right; lia | right; lia].
+Qed.
+
+Lemma enum_of_numbering_ok : forall e,
+  en_ok e ->
+  Forall in64 (thrift_numbering (map (fun v => declared (v_tail v)) (e_vs e)) (-1))
+  /\ map ev_value (en_values (enum_of e)) = thrift_numbering (map (fun v => declared (v_tail v)) (e_vs e)) (-1)
+  /\ map ev_name (en_values (enum_of e)) = map (fun v => v_c v :: v_t v) (e_vs e).
+Proof.
+  intros e (_ & _ & _ & _ & _ & _ & Hvs & _ & _ & Hov).
+  pose proof (enum_numbering_exact (map ev_pair (e_vs e)) (evs_explicit_in64 _ Hvs)) as [Hin Hout].
+  rewrite declared_pairs in Hin, Hout.
+  destruct (Forall_dec in64 in64_dec (thrift_numbering (map (fun v => declared (v_tail v)) (e_vs e)) (-1))) as [Hf|Hnf].
+  - destruct (Hin Hf) as [_ Hv]. split; [exact Hf|]. unfold enum_of. cbn [en_values]. split; [exact Hv|].
+    destruct (enum_number_keeps (map ev_pair (e_vs e)) 0) as (Hn & _). rewrite Hn, map_map. apply map_ext. intros v. reflexivity.
+  - destruct (Hout Hnf) as [v Hv]. rewrite Hov in Hv. discriminate Hv.
+Qed.
